@@ -95,6 +95,7 @@ func ruleFmt12(c *Ctx) {
 		}
 		// writers handed to EncodeView in this function (and its closures)
 		var writers []ssa.Value
+		flushes := map[ssa.CallInstruction]bool{}
 		var scanEnc func(g *ssa.Function)
 		scanEnc = func(g *ssa.Function) {
 			for _, call := range core.Calls(g) {
@@ -103,7 +104,13 @@ func ruleFmt12(c *Ctx) {
 					continue
 				}
 				if c.P.Name(f) == "lib/query.EncodeView" || (c.P.IsControl(f) && strings.HasPrefix(f.Name(), "ctlEncodeView")) {
-					writers = append(writers, call.Common().Args[1])
+					// the result may be encoded into a local buffer first: the writer is then the
+					// stream the buffer is written to, and that write is EncodeView's own output
+					ws, fl := fxBufferedWriters(c, g, call.Common().Args[1])
+					writers = append(writers, ws...)
+					for f := range fl {
+						flushes[f] = true
+					}
 				}
 			}
 			for _, af := range g.AnonFuncs {
@@ -136,7 +143,7 @@ func ruleFmt12(c *Ctx) {
 		scan = func(g *ssa.Function) {
 			for _, call := range core.Calls(g) {
 				recv, data, ok := fxFileWrite(c, call)
-				if !ok || !sameWriter(recv) {
+				if !ok || flushes[call] || !sameWriter(recv) {
 					continue
 				}
 				k++
